@@ -422,8 +422,12 @@ impl Prop for C05 {
         };
         let mut text = gen_text_case(rng, max_lines, true);
         // very rarely: more than 65536 distinct lines overall (fewer per side)
-        if rng.below(if tier == Tier::Quick { 130_000 } else { 1_500_000 }) == 0 {
-            let (o, n) = crate::gen::gen_many_distinct(rng);
+        if rng.below(if tier == Tier::Quick { 50_000 } else { 600_000 }) == 0 {
+            let (o, n) = if rng.chance(1, 3) {
+                crate::gen::gen_many_distinct(rng)
+            } else {
+                crate::gen::gen_composite(rng)
+            };
             let render = |xs: &[u32]| -> Vec<u8> {
                 let mut t = Vec::new();
                 for x in xs {
